@@ -954,3 +954,86 @@ func init() {
 		{"ekuLoopFact", ekuLoopFact(c)},
 	}})
 }
+
+// segmentsKernel: the body of fn, one Lean Bool per top-level statement that can return, in source order: "this statement lets
+// the call go on" (false = it returns an error). Each statement is translated whole (nested tests in their order) but on its
+// own, so that the term stays linear in the size of the function; the function accepts iff every entry is true.
+func segmentsKernel(rel, fn, leanName, params string, sp Spec) func() string {
+	return func() string {
+		fd := mustFunc(rel, fn)
+		var segs []string
+		for _, st := range fd.Body.List {
+			if !hasReturn([]ast.Stmt{st}) {
+				continue
+			}
+			if _, ok := st.(*ast.ReturnStmt); ok {
+				continue // the final successful return
+			}
+			t := &tr{sp: sp, file: parseFile(rp(rel))}
+			t.prepare(fd)
+			t.aliasesOnPathTo(st)
+			segs = append(segs, "(" + strings.ReplaceAll(t.block([]ast.Stmt{st}, "true", "    "), "\n", "\n  ") + ")")
+		}
+		return fmt.Sprintf("/-- generated from %s func %s: its top-level statements that can return, in source order, each as \"does not reject\" -/\ndef %s %s : List Bool :=\n  [%s]\n",
+			rel, fn, leanName, params, strings.Join(segs, ",\n   "))
+	}
+}
+
+// ---- deepening round: whole bodies -------------------------------------------------------------------------------------------
+
+func init() {
+	c := "trillian/ctfe/config.go"
+	register(genFile{name: "ConfigBodies", imports: []string{"CTV.Basic.I64", "CTV.Basic.ErrKind"}, units: []unit{
+		{"validateLogConfigChecks", func() string { return segmentsKernel(c, "ValidateLogConfig", "validateLogConfigChecks",
+			"(logId_ : Int) (pubSet pubBad isMirror frozenSet privSet privBad rejectExpired rejectUnexpired ekuBad startSet startBad limitSet limitBad : Bool) (start_ limit_ max_ exp_ : Int) (verifierFails shapeFails sigFails : Bool) (storage_ connLen nParts : Int) (scheme_ : String) (dsnBad pgBad : Bool)",
+			Spec{Kind: "i64", Lazy: true, Canon: true, Inline: true, ParamNames: []string{"cfg"}, Ret: "errlastbool", Ignore: []string{"klog."},
+				IgnoreLHS: []string{"vCfg.PrivKey", "vCfg.KeyUsages", "vCfg.NotAfterStart", "*vCfg.NotAfterStart", "vCfg.NotAfterLimit", "*vCfg.NotAfterLimit",
+					"vCfg.FrozenSTH", "vCfg.CTFEStorageConnectionString", "vCfg.ExtraDataIssuanceChainStorageBackend", "vCfg.PubKey"},
+				InitCond: map[string]string{
+					"pubKey := cfg.PublicKey ; pubKey != nil":                                   "pubSet",
+					"vCfg.PubKey, err = x509.ParsePKIXPublicKey(pubKey.Der) ; err != nil":       "pubBad",
+					"err := start.CheckValid() ; err != nil":                                    "startBad",
+					"err := limit.CheckValid() ; err != nil":                                    "limitBad",
+					"err := cfg.NotAfterStart.CheckValid() ; err != nil":                        "startBad",
+					"err := cfg.NotAfterLimit.CheckValid() ; err != nil":                        "limitBad",
+					"sth := cfg.FrozenSth ; cfg.FrozenSth != nil":                               "frozenSet",
+					"pubKey := cfg.PublicKey ; cfg.PublicKey != nil":                            "pubSet",
+					"vCfg.PubKey, err = x509.ParsePKIXPublicKey(cfg.PublicKey.Der) ; err != nil": "pubBad",
+					"sth := cfg.FrozenSth ; sth != nil":                                         "frozenSet",
+					"err := verifier.VerifySTHSignature(*vCfg.FrozenSTH) ; err != nil":          "sigFails",
+					"_, err := mysql.ParseDSN(conn[1]) ; err != nil":                            "dsnBad",
+					"_, err := pgconn.ParseConfig(cfg.CtfeStorageConnectionString) ; err != nil": "pgBad"},
+				RangeAnyReturn: map[string]string{"cfg.ExtKeyUsages": "ekuBad"},
+				InitCondByCall: map[string]string{".ToSignedTreeHead": "shapeFails", ".VerifySTHSignature": "sigFails", ".ParseDSN": "dsnBad", ".ParseConfig": "pgBad"},
+				ErrCalls: map[string]string{"cfg.PrivateKey.UnmarshalNew": "privBad", "ct.NewSignatureVerifier": "verifierFails", "(&ct.GetSTHResponse{": "shapeFails"},
+				Repl: withConsts(c, map[string]string{"cfg.LogId": "logId_", "cfg.IsMirror": "isMirror", "cfg.FrozenSth != nil": "frozenSet", "cfg.PrivateKey == nil": "(!privSet)", "cfg.PrivateKey != nil": "privSet",
+					"cfg.NotAfterStart != nil": "startSet", "cfg.NotAfterLimit != nil": "limitSet", "start != nil": "startSet", "limit != nil": "limitSet",
+					"(*vCfg.NotAfterLimit)": "limit_", "*vCfg.NotAfterLimit": "limit_", "(*vCfg.NotAfterStart)": "start_", "*vCfg.NotAfterStart": "start_",
+					"len(cfg.ExtKeyUsages) > 0": "true", "cfg.ExtraDataIssuanceChainStorageBackend": "storage_", "conn[0]": "scheme_",
+					"configpb.LogConfig_ISSUANCE_CHAIN_STORAGE_BACKEND_CTFE": "(1 : Int)", "configpb.LogConfig_ISSUANCE_CHAIN_STORAGE_BACKEND_TRILLIAN_GRPC": "(0 : Int)", "len(cfg.CtfeStorageConnectionString)": "connLen", "len(conn)": "nParts",
+					"cfg.RejectExpired": "rejectExpired", "cfg.RejectUnexpired": "rejectUnexpired",
+					"cfg.MaxMergeDelaySec": "max_", "cfg.ExpectedMergeDelaySec": "exp_"})})() }},
+		// storage.NewIssuanceChainStorage: (0 no storage / 1 a storage, is-error) by backend value and connection-string prefix
+		{"newChainStorageBody", handlerKernel("trillian/ctfe/storage/storage.go", "NewIssuanceChainStorage", "newChainStorageBody",
+			"(backend_ : Int) (mysqlPrefix pgPrefix : Bool)", "Nat × Bool", "", "(0, false)",
+			Spec{Kind: "i64", Lazy: true, Ret: "statusstate",
+				Status: map[string]int{"nil": 0, "mysql.NewIssuanceChainStorage(ctx, dbConn)": 1, "postgresql.NewIssuanceChainStorage(ctx, dbConn)": 1},
+				Repl: map[string]string{"backend": "backend_", "strings.HasPrefix(dbConn, \"mysql\")": "mysqlPrefix", "strings.HasPrefix(dbConn, \"postgres\")": "pgPrefix",
+					"configpb.LogConfig_ISSUANCE_CHAIN_STORAGE_BACKEND_CTFE": "(1 : Int)", "configpb.LogConfig_ISSUANCE_CHAIN_STORAGE_BACKEND_TRILLIAN_GRPC": "(0 : Int)"}})},
+		// setUpLogInfo: (which chain service the instance gets: 0 none (error) / 1 in-backend / 2 external storage, is-error)
+		{"setUpLogInfoBody", handlerKernel("trillian/ctfe/instance.go", "setUpLogInfo", "setUpLogInfoBody",
+			"(isMirror : Bool) (nRoots : Int) (rootsFail signerFails pubSet pubEcdsa pubEd25519 pubRsa pubConsistent oidsFail storageFails storageNil cacheFails : Bool)",
+			"Nat × Bool", "", "(0, false)",
+			Spec{Kind: "i64", Lazy: true, Canon: true, ParamNames: []string{"ctx", "opts"}, Ret: "statusstate", Ignore: []string{"klog."},
+				Status: map[string]int{"nil": 0, "newLogInfo(opts, validationOpts, signer, new(util.SystemTimeSource), &directIssuanceChainService{})": 1, "logInfo": 2,
+					"newLogInfo(opts, validationOpts, signer, new(util.SystemTimeSource), issuanceChainService)": 2},
+				RangeAnyReturn: map[string]string{"opts.Validated.Config.RootsPemFile": "rootsFail", "cfg.RootsPemFile": "rootsFail"},
+				ErrCalls: map[string]string{"keys.NewSigner": "signerFails", "parseOIDs": "oidsFail", "storage.NewIssuanceChainStorage": "storageFails", "cache.NewIssuanceChainCache": "cacheFails"},
+				TypeSwitch: map[string]map[string]string{"opts.Validated.PubKey": {"*ecdsa.PublicKey": "pubEcdsa", "ed25519.PublicKey": "pubEd25519", "*rsa.PublicKey": "pubRsa"},
+					"vCfg.PubKey": {"*ecdsa.PublicKey": "pubEcdsa", "ed25519.PublicKey": "pubEd25519", "*rsa.PublicKey": "pubRsa"}},
+				IgnoreLHS: []string{"validationOpts.rejectExtIds"},
+				Repl: map[string]string{"opts.Validated.Config.IsMirror": "isMirror", "cfg.IsMirror": "isMirror", "len(cfg.RootsPemFile)": "nRoots", "len(opts.Validated.Config.RootsPemFile)": "nRoots",
+					"opts.Validated.PubKey != nil": "pubSet", "vCfg.PubKey != nil": "pubSet", "pub.Equal(signer.Public())": "pubConsistent",
+					"issuanceChainStorage == nil": "storageNil"}})},
+	}})
+}
